@@ -68,7 +68,7 @@ def required_counters(tier):
         "conj.dtype_fail": 20,
         "conj.any_missing_attr": 5,
         "transcripts_compared": 1000,
-        "prior_nonempty": 1000,
+        "prior_nonempty": 1000, "annotation_object_rechecked": 5000, "br.named.hostile_axis_name": 500,
     }
     return base
 
@@ -154,7 +154,13 @@ def dtype_name_of(kind, dtype):
     return dtype
 
 
-def build_annotation(cat, arr, spec):
+_ANN_OBJECTS = {}
+
+
+def build_annotation(cat, arr, spec, reuse=True):
+    """The same annotation OBJECT is handed out again for an equal (category, array type, dim string):
+    over a run each object is checked under many different prior bindings and argument values, so a
+    verdict remembered per annotation object (instead of being recomputed from the bindings) shows."""
     import typing
 
     import jax
@@ -162,8 +168,14 @@ def build_annotation(cat, arr, spec):
 
     import jaxtyping
 
+    key = (cat, arr, spec)
+    if reuse and key in _ANN_OBJECTS:
+        return _ANN_OBJECTS[key]
     A = {"np": np.ndarray, "jax": jax.Array, "any": typing.Any, "duck": real.Duck}[arr]
-    return getattr(jaxtyping, cat)[A, spec]
+    ann = getattr(jaxtyping, cat)[A, spec]
+    if reuse and len(_ANN_OBJECTS) < 50000:
+        _ANN_OBJECTS[key] = ann
+    return ann
 
 
 def expected_conjunct(cat, arr, vkind, dtype):
@@ -181,10 +193,34 @@ def expected_conjunct(cat, arr, vkind, dtype):
     return "pass"
 
 
+_SPEC_POOL = []
+HOSTILE_AXIS_NAMES = [
+    {"a": "e", "b": "tau", "c": "gamma"},
+    {"a": "pi", "b": "inf", "c": "log"},
+    {"a": "len", "b": "abs", "c": "int"},
+    {"a": "sum", "b": "id", "c": "exp"},
+    {"a": "np", "b": "jaxtyping", "c": "self"},
+]
+
+
 def gen_check(rng, single, variadic, args, tier):
     """-> dict describing one check (all JSON-able)."""
     max_rank = 6 if tier == "thorough" else 5
-    spec = G.gen_spec(rng, max_axes=5, allow_tree=rng.random() < 0.03)
+    if _SPEC_POOL and rng.random() < 0.35:
+        spec = rng.choice(_SPEC_POOL)  # an annotation seen before (same object, see build_annotation)
+    else:
+        spec = G.gen_spec(rng, max_axes=5, allow_tree=rng.random() < 0.03)
+        if rng.random() < 0.15:
+            # axis names that are also names of builtins / math functions and constants: a bound axis
+            # always wins over anything else an implementation may put into the evaluation namespace
+            import re as _re
+
+            m = rng.choice(HOSTILE_AXIS_NAMES)
+            spec = _re.sub(r"\b([abc])\b", lambda mo: m[mo.group(1)], spec)
+        if len(_SPEC_POOL) < 300:
+            _SPEC_POOL.append(spec)
+        else:
+            _SPEC_POOL[rng.randrange(300)] = spec
     toks = M.parse(spec)  # generator only emits legal strings; a DimValueError here is a harness bug
     if rng.random() < 0.62:
         shape = G.gen_shape_for(rng, toks, single, variadic, args, max_rank=max_rank)
@@ -239,6 +275,9 @@ def model_step(c, single, variadic, args):
     return {v}, v, s1, v1, why, None
 
 
+_SEEN_ANN = set()
+
+
 def run_context(rec, rng, tier, script=None, ctx=None):
     """Generate (or replay) one context; returns the JSON-able script."""
     replaying = script is not None
@@ -280,6 +319,11 @@ def run_context(rec, rng, tier, script=None, ctx=None):
             got = real.check(x, ann)
             key = (sorted(single.items()), sorted((k, list(v)) for k, v in variadic.items()), c["spec"].split(), c["shape"], c["cat"], c["arr"], c["vkind"], c["dtype"], sorted((k, v if not isinstance(v, real.Holder) else v.k) for k, v in args.items()))
             rec.case(key, nontrivial=bool(single or variadic) or len(toks) >= 2)
+            if any(t.name in ("e", "tau", "pi", "len", "sum", "np") for t in toks if t.kind == "named"):
+                rec.count("br.named.hostile_axis_name")
+            if id(ann) in _SEEN_ANN:
+                rec.count("annotation_object_rechecked")
+            _SEEN_ANN.add(id(ann))
             if single or variadic:
                 rec.count("prior_nonempty")
             rec.count("verdict." + (got if got in ("ok", "no", "annot") else "exc"))
